@@ -5,8 +5,9 @@ Many rules name a local of the function they anchor in (`sig_present`,
 `enc_keysize_cs`, `rem`).  What a local is called carries no behaviour, so a
 rule must not report when one is renamed.  Instead of teaching every rule to
 find its locals by dataflow, the index alpha-converts each function once,
-right after parsing: a plain local whose first binding has the same shape
-as a local of the reference tree (sa/localnames.json, generated from the
+right after parsing: a plain local whose bindings have the same shapes
+(as a set; comparisons in canonical orientation; same number of reads) as a
+local of the reference tree (sa/localnames.json, generated from the
 pinned tree by tools/gen_localnames.py) but a different name gets the
 reference name back.
 
@@ -120,8 +121,9 @@ class _CanonCompare(ast.NodeTransformer):
 
 
 def _binding_shapes(fn, plain: Set[str]) -> List[Tuple[str, str]]:
-    """[(name, shape hash)] of the first binding of every plain local, in
-    source order; shapes do not mention what any plain local is called"""
+    """[(name, hash of the shapes of all its bindings)] of every plain local,
+    in order of first binding; shapes do not mention what any plain local is
+    called"""
     par: Dict[int, ast.AST] = {}
     for p in ast.walk(fn):
         for ch in ast.iter_child_nodes(p):
